@@ -144,7 +144,11 @@ func (p *Pool) Search(count int, f func() interface{}) []interface{} {
 	results := make([]interface{}, count)
 
 	ctr := int64(count)
-	ctrChanged := make(chan struct{})
+	// Workers notify us after every success. We stop listening as soon as the counter reaches
+	// zero, so the channel must be able to hold every notification that can still be in flight
+	// (at most one per result, plus one per worker that was already past its last counter
+	// check): otherwise such a worker blocks forever on its send and is lost to the pool.
+	ctrChanged := make(chan struct{}, count+p.workerCount)
 	cmd := command{
 		search:     true,
 		ctr:        &ctr,
@@ -183,7 +187,9 @@ func (p *Pool) Parallelize(count int, f func(int) interface{}) []interface{} {
 	results := make([]interface{}, count)
 
 	ctr := int64(count)
-	ctrChanged := make(chan struct{})
+	// One notification per task; buffered, so that a worker whose notification we no longer
+	// wait for (we return as soon as the counter reaches zero) is not blocked forever on its send.
+	ctrChanged := make(chan struct{}, count)
 	cmdI := 0
 	for cmdI < count {
 		cmd := command{
